@@ -81,7 +81,9 @@ def iter_desc(X, st, v):
         if isinstance(o, CDict):
             return IterDesc(z3.IntSort(), None, None, concrete=[B.pykey_value(k) for k in o.items])
         if isinstance(o, LDict):
-            return IterDesc(core.Key, o.length(), lambda k: VKey(k), guard=o.present, ordered=False)
+            d = IterDesc(core.Key, o.length(), lambda k: VKey(k), guard=o.present, ordered=False)
+            d.dict_obj = o
+            return d
         if isinstance(o, CSet):
             return IterDesc(z3.IntSort(), None, None, concrete=[B.pykey_value(k) for k in sorted(o.items, key=repr)])
         if isinstance(o, LSet):
@@ -917,7 +919,14 @@ def _comprehension(X, st, node, gen, kind, itv):
         if kind == "gen" and desc.ksort != z3.IntSort():
             return [Out(N, "next", v=VIter("desc", IterDesc(desc.ksort, desc.length, lambda i: elem(i, 0), guard=desc._guard, ordered=False)))]
         if desc.ksort != z3.IntSort():
-            raise Unsupported("list comprehension over unordered collection")
+            # a list built by iterating a dict: positional through the dict's enumeration (the same dict in the
+            # same state enumerates in the same order every time: denum / dpos are functions of the dict id)
+            o = getattr(desc, "dict_obj", None)
+            if o is None or kind != "list":
+                raise Unsupported("list comprehension over unordered collection")
+            positional(N, None, desc)
+            did = z3.IntVal(o.did)
+            return [Out(N, "next", v=N.alloc(LList(o.length(), lambda j: elem(denum(did, j), 0))))]
         if kind == "list":
             return [Out(N, "next", v=N.alloc(LList(desc.length, lambda i: elem(i, 0))))]
         return [Out(N, "next", v=VIter("desc", IterDesc(z3.IntSort(), desc.length, lambda i: elem(i, 0))))]
